@@ -91,6 +91,8 @@ func c10Cold(c *mon.Ctx) {
 	res := make([]got, len(W.Objs))
 	var next atomic.Int64
 	var wg sync.WaitGroup
+	stopReaders := c10StartReaders(c, 3, 7000+c.Shard)
+	defer stopReaders()
 	for gi := 0; gi < G; gi++ {
 		wg.Add(1)
 		go func(gi int) {
@@ -160,62 +162,8 @@ func c10Cold(c *mon.Ctx) {
 func c10W1(c *mon.Ctx, G, procs int) {
 	old := runtime.GOMAXPROCS(procs)
 	defer runtime.GOMAXPROCS(old)
-	g := lint.GlobalRegistry()
 	day := today()
-	var stop atomic.Bool
-	var readers sync.WaitGroup
-	var reads atomic.Int64
-	for r := 0; r < 4; r++ {
-		readers.Add(1)
-		go func(r int) {
-			defer readers.Done()
-			defer c10Recover(c, "reader")
-			rng := c.Rng(-100-r, G*100+procs)
-			for !stop.Load() {
-				reg := c10Regs[rng.Intn(len(c10Regs))].reg
-				if reg == nil {
-					reg = g
-				}
-				switch rng.Intn(8) {
-				case 0:
-					n := reg.Names()
-					if !sort.StringsAreSorted(n) {
-						c.V("names-unsorted-under-concurrency", "Names() observed unsorted while other goroutines lint", "", nil, nil)
-					}
-				case 1:
-					_ = reg.Sources()
-					_ = reg.CertificateLints().Names()
-					_ = reg.RevocationListLints().Names()
-					_ = reg.OcspResponseLints().Names()
-					_ = reg.CertificateLints().Sources()
-					_ = reg.RevocationListLints().Sources()
-					_ = reg.OcspResponseLints().Sources()
-				case 2:
-					n := Inv[rng.Intn(len(Inv))].Name
-					_ = reg.CertificateLints().ByName(n)
-					_ = reg.RevocationListLints().ByName(n)
-					_ = reg.OcspResponseLints().ByName(n)
-				case 3:
-					_ = reg.CertificateLints().BySource(lint.CABFBaselineRequirements)
-					_ = reg.RevocationListLints().BySource(lint.RFC5280)
-				case 4:
-					_ = reg.CertificateLints().Lints()
-					_ = reg.OcspResponseLints().Lints()
-				case 5:
-					if f, err := reg.Filter(randFilter(rng, false)); err == nil {
-						_ = f.Names()
-					}
-				case 6:
-					var buf bytes.Buffer
-					reg.WriteJSON(&buf)
-				case 7:
-					_, _ = reg.DefaultConfiguration()
-				}
-				reads.Add(1)
-				c.Tick()
-			}
-		}(r)
-	}
+	stopReaders := c10StartReaders(c, 4, G*100+procs)
 	var wg sync.WaitGroup
 	var next atomic.Int64
 	total := int64(len(c10Objs) * 2)
@@ -255,10 +203,75 @@ func c10W1(c *mon.Ctx, G, procs int) {
 		}(gi)
 	}
 	wg.Wait()
-	stop.Store(true)
-	readers.Wait()
-	c.R.Count("registry_reads", reads.Load())
+	stopReaders()
 	c.R.Distinct("w1_configs", fmt.Sprintf("G=%d,GOMAXPROCS=%d", G, procs))
+}
+
+// c10StartReaders starts n goroutines that hammer the registry API (every operation in turn, on every shared
+// registry) until the returned stop function is called; each reader does at least 160 operations.
+func c10StartReaders(c *mon.Ctx, n, stream int) (stop func()) {
+	g := lint.GlobalRegistry()
+	var stopFlag atomic.Bool
+	var readers sync.WaitGroup
+	var reads atomic.Int64
+	for r := 0; r < n; r++ {
+		readers.Add(1)
+		go func(r int) {
+			defer readers.Done()
+			defer c10Recover(c, "reader")
+			rng := c.Rng(-100-r, stream)
+			for k := 0; !stopFlag.Load() || k < 160; k++ {
+				reg := c10Regs[(k/8+r)%len(c10Regs)].reg
+				if reg == nil {
+					reg = g
+				}
+				switch (k + r) % 8 {
+				case 0:
+					n := reg.Names()
+					if !sort.StringsAreSorted(n) {
+						c.V("names-unsorted-under-concurrency", "Names() observed unsorted while other goroutines lint", "", nil, nil)
+					}
+				case 1:
+					_ = reg.Sources()
+					_ = reg.CertificateLints().Names()
+					_ = reg.RevocationListLints().Names()
+					_ = reg.OcspResponseLints().Names()
+					_ = reg.CertificateLints().Sources()
+					_ = reg.RevocationListLints().Sources()
+					_ = reg.OcspResponseLints().Sources()
+				case 2:
+					n := Inv[rng.Intn(len(Inv))].Name
+					_ = reg.CertificateLints().ByName(n)
+					_ = reg.RevocationListLints().ByName(n)
+					_ = reg.OcspResponseLints().ByName(n)
+				case 3:
+					_ = reg.CertificateLints().BySource(lint.CABFBaselineRequirements)
+					_ = reg.RevocationListLints().BySource(lint.RFC5280)
+					_ = reg.OcspResponseLints().BySource(lint.RFC6960)
+				case 4:
+					_ = reg.CertificateLints().Lints()
+					_ = reg.RevocationListLints().Lints()
+					_ = reg.OcspResponseLints().Lints()
+				case 5:
+					if f, err := reg.Filter(randFilter(rng, false)); err == nil {
+						_ = f.Names()
+					}
+				case 6:
+					var buf bytes.Buffer
+					reg.WriteJSON(&buf)
+				case 7:
+					_, _ = reg.DefaultConfiguration()
+				}
+				reads.Add(1)
+				c.Tick()
+			}
+		}(r)
+	}
+	return func() {
+		stopFlag.Store(true)
+		readers.Wait()
+		c.R.Count("registry_reads", reads.Load())
+	}
 }
 
 func c10Recover(c *mon.Ctx, who string) {
@@ -282,6 +295,8 @@ func c10W2(c *mon.Ctx, perLint int) {
 		}
 	}
 	const G = 16
+	stopReaders := c10StartReaders(c, 2, 8000)
+	defer stopReaders()
 	for _, li := range Inv {
 		objs := applic[li.Name]
 		if len(objs) == 0 {
@@ -350,6 +365,8 @@ func c10W3(c *mon.Ctx, rounds int) {
 	runtime.GOMAXPROCS(16)
 	g := lint.GlobalRegistry()
 	var wg sync.WaitGroup
+	stopReaders := c10StartReaders(c, 2, 9000)
+	defer stopReaders()
 	for gi := 0; gi < 16; gi++ {
 		wg.Add(1)
 		go func(gi int) {
